@@ -100,7 +100,7 @@ def _template_constraint(labels):
     concrete polynomial is fitted to the witness in ``_plan_constraint``."""
     return st.fixed_dictionaries({
         "t": st.just("tmpl"),
-        "name": gen.pick(("sum_le_1", 3), ("or2", 1), ("x_le_y", 1), ("nonneg_le_K", 2)),
+        "name": gen.pick(("sum_le_1", 3), ("or2", 1), ("x_le_y", 1), ("nonneg_le_K", 2), ("z_plus_xy_eq0", 1)),
         "labs": st.permutations(labels).map(list),
         "coefs": st.lists(st.sampled_from([1, 1, 2]), min_size=3, max_size=3),
         "slack": st.sampled_from([0, 0, 1]),
@@ -251,6 +251,22 @@ def _plan_constraint(c, labels, wbits, spin):
         name = c["name"]
         if name == "or2" and not one:
             name = "x_le_y"
+        if name == "z_plus_xy_eq0":
+            # z + x*y == 0 (equal signs: the look-alike of the AND form z == x*y); holds where z = 0 and x*y = 0
+            if len(zero) >= 2 and len(labs) >= 3:
+                z, x_ = zero[0], zero[1]
+                y_ = [l for l in labs if l not in (z, x_)][0]
+                P = {(z,): c["coefs"][0], (x_, y_): c["coefs"][0]}
+                Pf = dict(P)
+                if c.get("rev"):
+                    P = dict(reversed(list(P.items())))
+
+                def pred(a, Pf=Pf):
+                    return ref.ref_value(Pf, a) == 0
+                assert pred(wit), (c, P, wit)
+                return "add_constraint_eq_zero", (P,), {"suppress_warnings": True}, pred, "eq0[z+xy] %r" % (P,), \
+                    {l for k in P for l in k}
+            name = "sum_le_1"
         if name == "sum_le_1":                      # sum over S <= 1, S has at most one label that is 1 at x*
             S = (one[:1] + zero)[:3]
             S = [l for l in labs if l in S]
